@@ -398,8 +398,10 @@ class ResNetwork(GeoNetwork):
 
         """
         # a sparse matrix for the admittance values
+        #  NOTE: the default cutoff (1e-15) is below the accuracy of the SVD,
+        #  the zero mode of the Laplacian would be inverted for larger N
         self.sparse_R = sparse.lil_matrix(
-            np.linalg.pinv(self.admittance_lapacian()))
+            np.linalg.pinv(self.admittance_lapacian(), rcond=1e-12))
 
     def get_R(self):
         """Return the pseudo inverse of of the admittance Laplacian
